@@ -76,6 +76,7 @@ inductive FrameIn
   | pushPromise (sid : Nat)
   | unknown (ftype : Nat)
   | oversize
+  | contFlood                    -- 32nd CONTINUATION frame of one header block (h2_recv_continuation)
 deriving Repr, DecidableEq
 
 namespace E
@@ -323,6 +324,7 @@ def recvFrame (c : H2Conn) (f : FrameIn) : Res :=
   | .continuation _ => sendGoaway c E.protocol
   | .pushPromise _ => sendGoaway c E.protocol
   | .unknown _ => (c, [])
+  | .contFlood => sendGoaway c 0
 
 /-! ### send side: h2_process_streams() -/
 
